@@ -4,7 +4,7 @@ CONSTANTS
   Order <- Order2
   Collide = FALSE
   Hooks <- Hooks_none2
-  Flags <- Flags_none
+  Flags <- Flags_denypubB
   CtxPersist = TRUE
   Topics = {"t1"}
   Pats = {"MOD_ST."}
